@@ -194,37 +194,6 @@ def judge(fmt, kind, impl, ref):
     return None
 
 
-def _bson_lenient(line, impl, which):
-    t = line.split()
-    if t[0] != "bin" or t[1] != "dec" or t[2] != "bson" or not impl.startswith("ok"):
-        return False
-    data = bytes.fromhex(t[5][1:])
-    try:
-        binfmt.bson_walk(data)
-        return False                      # well-formed: not this finding
-    except binfmt._Ill:
-        pass
-    except Exception:
-        return False
-    try:
-        used = binfmt.bson_walk(data, lenient_bool=(which == "bool"), lenient_strterm=(which == "strterm"))
-    except Exception:
-        return False
-    return used == {which}
-
-
-@vlib.known_matcher("D24")
-def _match_d24(stream, line, impl, model):
-    """BSON boolean element whose byte is neither 0x00 nor 0x01 is decoded as true (otherwise well-formed input)"""
-    return _bson_lenient(line, impl, "bool")
-
-
-@vlib.known_matcher("D25")
-def _match_d25(stream, line, impl, model):
-    """BSON string whose last byte is not 0x00 is accepted, the byte silently dropped (otherwise well-formed input)"""
-    return _bson_lenient(line, impl, "strterm")
-
-
 def has_sub_int64(v):
     if isinstance(v, int) and not isinstance(v, bool):
         return v < -2 ** 63
@@ -272,6 +241,16 @@ def streams(ctx, rng, scale):
     ctx.correspond("cbor-generated", HARNESS, lc, oracle, nontrivial, ref_lines=with_ref(lc), want_model=False)
     le = [dec_line("cbor", "j", b) for b in cbor_exhaustive(2 if ctx.tier == "quick" else 3, rng, 200000)]
     ctx.correspond("cbor-exhaustive-short", HARNESS, le, oracle, nontrivial, ref_lines=with_ref(le), want_model=False)
+    # every IEEE 754 binary16 pattern (both signs of zero, subnormals, normals, infinities, NaNs), alone and inside a float16 typed array,
+    # and binary32 patterns along the exponent range with both signs
+    lh = [dec_line("cbor", "j", b"\xf9" + bytes([h >> 8, h & 0xff])) for h in range(0, 65536, 1 if ctx.tier == "thorough" else 3)]
+    lh += [dec_line("cbor", "j", b"\xf9" + bytes([h >> 8, h & 0xff])) for h in (0x0000, 0x8000, 0x0001, 0x8001, 0x03ff, 0x83ff, 0x0400, 0x8400, 0x7bff, 0xfbff, 0x7c00, 0xfc00, 0x7e00, 0xfe00, 0x7c01)]
+    lh += [dec_line("cbor", "j", b"\xfa" + bytes([s | (e >> 1), ((e & 1) << 7) | m, 0, m2])) for s in (0, 0x80) for e in range(0, 256, 5) for m in (0, 1, 0x40, 0x7f) for m2 in (0, 1)]
+    ctx.correspond("cbor-float16-every-pattern", HARNESS, lh, oracle, nontrivial, ref_lines=with_ref(lh), want_model=False)
+    # … and the double each pattern denotes: binary::decode_half, as<double>() of a half-holding value and decode_cbor<double> against the
+    # Lean widening f16ToF64 (Props.C07.half_sign_symmetric / half_normal), plus encode_half back to the same pattern
+    lhv = ["bin half %04x" % h for h in range(0, 65536, 1 if ctx.tier == "thorough" else 3)] + ["bin half %04x" % h for h in (0x8000, 0x8001, 0x83ff, 0x8400, 0xfbff, 0xfc00, 0x7c00, 0x7e00)]
+    ctx.correspond("float16-values", HARNESS, lhv, lambda line, impl, model, ref=None: None, lambda l, i: l, model_lines=lhv)
     for fmt in ("msgpack", "ubjson", "bson"):
         fo = "m4096" if fmt == "ubjson" else "-"       # keep hostile counts from building 16M-element arrays in the harness
         lf = [dec_line(fmt, "j" if rng.random() < 0.7 else "o", b, fo) for b in fmt_inputs(fmt, rng, 1500 * scale, ctx.tier)]
@@ -285,7 +264,7 @@ def run(ctx):
     ctx.prove(MODULES, leancheck=(ctx.tier == "thorough"))
     ctx.cov["rule"] = ("byte strings: outputs of independent reference encoders (Python, from the format specs) over data-model values using every "
                        "legal argument width (minimal and non-minimal), definite and indefinite strings/containers, float16/32/64, tags; single-byte "
-                       "and structural mutations; every strict prefix; every 1- and 2-byte sequence (thorough: plus 200k sampled 3-byte sequences). "
+                       "and structural mutations; every strict prefix; every 1- and 2-byte sequence (thorough: plus 200k sampled 3-byte sequences); every third (thorough: every) binary16 pattern and a grid of binary32 patterns. "
                        "The real decoder's outcome is judged against the Lean reference decoder written from the specification (value / ill-formed / "
                        "unjudged for jsoncons-specific renderings). non-trivial = accepted input of >= 3 bytes; distinct by input")
     rng = vlib.rng_for(ctx.seed, "c07")
